@@ -799,6 +799,71 @@ Proof.
       unfold s_rx_valid. rewrite <- to_plain_items. unfold compile_ok in Hc. rewrite Hc. reflexivity.
 Qed.
 
+(* ---------------------------------------------------------------------------------------- *)
+(* whole pipelines of value-list / wildcard items, any length and order *)
+Definition good (x : value) : Prop :=
+  has_parts x /\ match x with VR v => compile_ok v = true | _ => True end.
+
+Lemma apply_value_good vs t x rs : base_kind t -> good x -> apply_value vs t x = Ok rs -> Forall good rs.
+Proof.
+  intros Hk [Hp Hc] H. unfold apply_value in H.
+  assert (G : forall (l : list sstring), Forall good (map VS l)).
+  { intros l. apply Forall_forall. intros r Hr. apply in_map_iff in Hr. destruct Hr as [w [<- _]]. split; exact I. }
+  assert (GR : forall (l : list sstring), forallb compile_ok l = true -> Forall good (map VR l)).
+  { intros l F. apply Forall_forall. intros r Hr. apply in_map_iff in Hr. destruct Hr as [w [<- Hw]].
+    split; [exact I|]. rewrite forallb_forall in F. exact (F w Hw). }
+  destruct Hk as [K|K]; rewrite K in H; destruct x as [v|v|e i]; try destruct Hp.
+  all: destruct (contains_ph (t_inc t) (t_exc t) v);
+       [|injection H as <-; constructor; [split; [exact I|exact Hc]|constructor]].
+  all: match type of H with obind ?a _ = _ => destruct a as [l| |]; try discriminate end; cbn [obind] in H.
+  - injection H as <-. apply G.
+  - destruct (forallb compile_ok l) eqn:F; [|discriminate]. injection H as <-. apply GR. exact F.
+  - injection H as <-. apply G.
+  - destruct (forallb compile_ok l) eqn:F; [|discriminate]. injection H as <-. apply GR. exact F.
+Qed.
+
+Lemma apply_item_spec vs t : item_ok t = true -> base_kind t -> forall l, Forall good l ->
+  match apply_item vs t l with
+  | Ok rs => s_each (s_step (tabs_of vs) (to_sitem t)) (map sv l) = Some (map sv rs) /\ Forall good rs
+  | SigmaErr _ => s_each (s_step (tabs_of vs) (to_sitem t)) (map sv l) = None
+  | Crash _ => False
+  end.
+Proof.
+  intros Hok Hk. induction l as [|x l IH]; intros Hg.
+  - cbn. split; [reflexivity | constructor].
+  - inversion Hg as [|? ? Hx Hl]; subst. specialize (IH Hl).
+    cbn [apply_item map s_each].
+    pose proof (base_step_spec vs t x Hok Hk (proj1 Hx) (proj2 Hx)) as B.
+    destruct (apply_value vs t x) as [a|e|e] eqn:Ea; cbn [obind].
+    + rewrite B. destruct (apply_item vs t l) as [b|e|e]; cbn [obind].
+      * destruct IH as [E G]. rewrite E. split; [rewrite map_app; reflexivity|].
+        apply Forall_app. split; [eapply apply_value_good; eassumption | exact G].
+      * rewrite IH. reflexivity.
+      * exact IH.
+    + rewrite B. reflexivity.
+    + exact B.
+Qed.
+
+Theorem pipeline_spec vs field ts : Forall (fun t => item_ok t = true /\ base_kind t) ts ->
+  forall l, Forall good l ->
+  match apply_pipeline vs ts l with
+  | Ok rs => s_pipeline (tabs_of vs) field (map to_sitem ts) (map sv l) = Some (map sv rs)
+  | SigmaErr _ => s_pipeline (tabs_of vs) field (map to_sitem ts) (map sv l) = None
+  | Crash _ => False
+  end.
+Proof.
+  induction ts as [|t ts IH]; intros Hts l Hg; [reflexivity|].
+  inversion Hts as [|? ? [Hok Hk] Hrest]; subst. cbn [apply_pipeline map s_pipeline].
+  assert (Hi : s_item (tabs_of vs) field (to_sitem t) (map sv l) =
+               s_each (s_step (tabs_of vs) (to_sitem t)) (map sv l)).
+  { unfold s_item, to_sitem. cbn [s_kind]. destruct Hk as [K|K]; rewrite K; reflexivity. }
+  rewrite Hi. pose proof (apply_item_spec vs t Hok Hk l Hg) as A.
+  destruct (apply_item vs t l) as [rs|e|e]; cbn [obind].
+  - destruct A as [E G]. rewrite E. exact (IH Hrest rs G).
+  - rewrite A. reflexivity.
+  - exact A.
+Qed.
+
 (* finding C17-F1: under `all` the replacements of one value are AND-linked *)
 Definition witness_all : case :=
   {| c_field := true; c_re := false; c_all := true; c_mods := [MContains; MExpand];
